@@ -191,6 +191,16 @@ def analyse(repo=None):
                                % (worker_reports_exc, sets_exc))
     if not rejected_silently and not sets_exc:
         raise TranslationError("half-repaired tree: rejected configurations are reported but the master never calls set_exception")
+    # enqueue(): the Future is in pending_futures BEFORE the job is handed to the master's queue (the model's enqueue is
+    # one atomic step: a status message can only arrive for a registered job).  Any other order fails closed.
+    enq = find_def(mtree, "enqueue", ast.FunctionDef)
+    reg = [n.lineno for n in ast.walk(enq) if isinstance(n, ast.Assign) and len(n.targets) == 1
+           and isinstance(n.targets[0], ast.Subscript) and _u(n.targets[0].value) == "self.pending_futures"]
+    puts = [n.lineno for n in ast.walk(enq) if isinstance(n, ast.Call) and _u(n.func) == "self.job_queue.put"]
+    if len(reg) != 1 or len(puts) != 1:
+        raise TranslationError("enqueue: expected one registration in pending_futures and one job_queue.put (found %d / %d)" % (len(reg), len(puts)))
+    if not reg[0] < puts[0]:
+        raise TranslationError("enqueue: the Future is registered after the job is queued (a status can arrive for an unregistered job)")
     return {"worker_reports_failures": worker_reports_exc and sets_exc, "future_resolved_by_job_id": by_id,
             "non_list_config_rejected_silently": rejected_silently, "falsy_payload_replaced": falsy,
             "paths": [wpath, mpath]}
